@@ -29,6 +29,10 @@ TRUSTED = [
     'tools/gen/gen_codecs.py (ast: keys written per saver path, keys tested / read per loader path, constructor arguments fed from the record; '
     'its rules: every if / loop / try forks a path, a value "depends on a test" when it contains a conditional / boolean / comparison or a local '
     'bound or mutated under a condition); the table is tied to the live code by the `codecs` stream (keys of every record written by a session)',
+    'the __gluestate__ / __setgluestate__ method pairs of the classes of the class table are covered by the method table theorems (method_*) over '
+    'tools/gen/gen_codecs.py -> coq/gen/Gen_methodcodecs.v (ast: per saver path and key the instance attributes read and every transformation outside the '
+    'lossless list attribute access / np.asarray / .tolist() / .items() / list / tuple / dict / str / float / int / displays / comprehensions / context.id / context.do; '
+    'per loader and key the transformations beyond context.object / np.asarray / list / tuple / dict); tied to the live code by the `method-codecs` stream (key sets) and the sessions',
     'numpy .npy/base64 codec, JSON, file readers (csv / fits / npy) and matplotlib colormaps are the platform',
 ]
 ASSUMPTIONS = [
@@ -164,6 +168,39 @@ def values_for(kind, seed, shape):
     raise ValueError(kind)
 
 
+# magnitude of a session (spec['mag'] = {'off': O, 'step': S}): every float component value v becomes O + S * v, every position parameter
+# of a region / range / inequality p becomes O + S * p and every length (radius) r becomes S * r, computed in float64. The same spec
+# without 'mag' is the session at its small, mostly dyadic, values. A codec must give back every float64 bit for bit, at any magnitude.
+CUR_MAG = [None]
+
+
+def mag_pos(p):
+    m = CUR_MAG[0]
+    if m is None or isinstance(p, bool) or not isinstance(p, (int, float)):
+        return p
+    return float(m['off']) + float(m['step']) * float(p)
+
+
+def mag_len(r):
+    m = CUR_MAG[0]
+    if m is None or isinstance(r, bool) or not isinstance(r, (int, float)):
+        return r
+    return float(m['step']) * float(r)
+
+
+def comp_values(c, shape):
+    """values of a stored component of a spec (kind 'vals': listed base values), at the magnitude of the session"""
+    k = c['kind']
+    if k == 'vals':
+        v = np.array(c['vals'], dtype=float).reshape(shape)
+    else:
+        v = values_for(k, c['seed'], shape)
+    m = CUR_MAG[0]
+    if m is not None and k in ('float', 'floatnan', 'vals'):
+        v = float(m['off']) + float(m['step']) * v.astype(float)
+    return v
+
+
 def cat_categories(vals, cats):
     """explicit `categories=` argument of a CategoricalComponent from the option record of a spec:
     order: None (the values that occur, sorted = what the default would be) | 'reverse' | 'rotate' | 'swap' (first two exchanged);
@@ -215,24 +252,25 @@ def make_roi(rs):
 def _make_roi(rs):
     from glue.core import roi as R
     c = rs['cls']
+    P, L = mag_pos, mag_len
     if c == 'RectangularROI':
-        return R.RectangularROI(rs['xmin'], rs['xmax'], rs['ymin'], rs['ymax'], theta=rs.get('theta'))
+        return R.RectangularROI(P(rs['xmin']), P(rs['xmax']), P(rs['ymin']), P(rs['ymax']), theta=rs.get('theta'))
     if c == 'RangeROI':
-        return R.RangeROI(rs['orientation'], min=rs['min'], max=rs['max'])
+        return R.RangeROI(rs['orientation'], min=P(rs['min']), max=P(rs['max']))
     if c == 'XRangeROI':
-        return R.XRangeROI(rs['min'], rs['max'])
+        return R.XRangeROI(P(rs['min']), P(rs['max']))
     if c == 'YRangeROI':
-        return R.YRangeROI(rs['min'], rs['max'])
+        return R.YRangeROI(P(rs['min']), P(rs['max']))
     if c == 'CircularROI':
-        return R.CircularROI(rs['xc'], rs['yc'], rs['radius'])
+        return R.CircularROI(P(rs['xc']), P(rs['yc']), L(rs['radius']))
     if c == 'CircularAnnulusROI':
-        return R.CircularAnnulusROI(rs['xc'], rs['yc'], rs['inner'], rs['outer'])
+        return R.CircularAnnulusROI(P(rs['xc']), P(rs['yc']), L(rs['inner']), L(rs['outer']))
     if c == 'EllipticalROI':
-        return R.EllipticalROI(rs['xc'], rs['yc'], rs['rx'], rs['ry'], theta=rs.get('theta'))
+        return R.EllipticalROI(P(rs['xc']), P(rs['yc']), L(rs['rx']), L(rs['ry']), theta=rs.get('theta'))
     if c in ('PolygonalROI', 'Path', 'VertexROIBase'):
-        return getattr(R, c)(vx=list(rs['vx']), vy=list(rs['vy']))
+        return getattr(R, c)(vx=[P(v) for v in rs['vx']], vy=[P(v) for v in rs['vy']])
     if c == 'PointROI':
-        return R.PointROI(rs['x'], rs['y'])
+        return R.PointROI(P(rs['x']), P(rs['y']))
     if c == 'CategoricalROI':
         return R.CategoricalROI(list(rs['categories']))
     if c == 'Projected3dROI':
@@ -303,7 +341,7 @@ def make_pretransform(name):
 def arith(datasets, d, e):
     """expression tree ['mul', 'x', 2] -> ComponentID / number / BinaryComponentLink"""
     if isinstance(e, (int, float)):
-        return e
+        return mag_pos(e)
     if isinstance(e, str):
         return att(datasets, (d, e))
     a, b = arith(datasets, d, e[1]), arith(datasets, d, e[2])
@@ -317,9 +355,9 @@ def make_state(datasets, st):
     if c == 'SubsetState':
         return S.SubsetState()
     if c == 'RangeSubsetState':
-        return S.RangeSubsetState(st['lo'], st['hi'], att(datasets, (d, st['att'])))
+        return S.RangeSubsetState(mag_pos(st['lo']), mag_pos(st['hi']), att(datasets, (d, st['att'])))
     if c == 'MultiRangeSubsetState':
-        return S.MultiRangeSubsetState([tuple(p) for p in st['pairs']], att(datasets, (d, st['att'])))
+        return S.MultiRangeSubsetState([tuple(mag_pos(q) for q in p) for p in st['pairs']], att(datasets, (d, st['att'])))
     if c == 'InequalitySubsetState':
         left = arith(datasets, d, st['left'])
         right = arith(datasets, d, st['right'])
@@ -341,7 +379,7 @@ def make_state(datasets, st):
     if c == 'CategoricalROISubsetState2D':
         return S.CategoricalROISubsetState2D({k: list(v) for k, v in st['categories'].items()}, att(datasets, (d, st['att1'])), att(datasets, (d, st['att2'])))
     if c == 'CategoricalMultiRangeSubsetState':
-        return S.CategoricalMultiRangeSubsetState({k: [tuple(p) for p in v] for k, v in st['ranges'].items()},
+        return S.CategoricalMultiRangeSubsetState({k: [tuple(mag_pos(q) for q in p) for p in v] for k, v in st['ranges'].items()},
                                                   att(datasets, (d, st['cat'])), att(datasets, (d, st['num'])))
     if c in ('AndState', 'OrState', 'XorState'):
         return getattr(S, c)(make_state(datasets, st['a']), make_state(datasets, st['b']))
@@ -383,10 +421,10 @@ def apply_style(style, spec):
 def write_file(ds, path_base):
     """write the main numeric / categorical components of a dataset spec to a file; returns the path"""
     shape = tuple(ds['shape'])
-    comps = [c for c in ds['comps'] if c['kind'] in ('float', 'int', 'cat', 'floatnan', 'key') and not c.get('mem')]
+    comps = [c for c in ds['comps'] if c['kind'] in ('float', 'int', 'cat', 'floatnan', 'key', 'vals') and not c.get('mem')]
     if ds['file'] == 'csv':
         path = path_base + '.csv'
-        cols = [values_for(c['kind'], c['seed'], shape) for c in comps]
+        cols = [comp_values(c, shape) for c in comps]
         with open(path, 'w') as f:
             f.write(','.join(c['name'] for c in comps) + '\n')
             for i in range(shape[0]):
@@ -394,17 +432,17 @@ def write_file(ds, path_base):
         return path
     if ds['file'] == 'npy':
         path = path_base + '.npy'
-        dt = [(c['name'], values_for(c['kind'], c['seed'], shape).dtype) for c in comps]
+        dt = [(c['name'], comp_values(c, shape).dtype) for c in comps]
         arr = np.zeros(shape, dtype=dt)
         for c in comps:
-            arr[c['name']] = values_for(c['kind'], c['seed'], shape)
+            arr[c['name']] = comp_values(c, shape)
         np.save(path, arr)
         return path
     if ds['file'] == 'fits':
         from astropy.io import fits
         path = path_base + '.fits'
         c = comps[0]      # one image per file; the other components of the dataset are added in memory
-        fits.HDUList([fits.PrimaryHDU(values_for(c['kind'], c['seed'], shape).astype(float))]).writeto(path, overwrite=True)
+        fits.HDUList([fits.PrimaryHDU(comp_values(c, shape).astype(float))]).writeto(path, overwrite=True)
         return path
     raise ValueError(ds['file'])
 
@@ -417,6 +455,7 @@ def realise(spec, scratch):
     from glue.core.component_link import ComponentLink
     from glue.core import link_helpers as LH
     setup_fn_module(spec)
+    CUR_MAG[0] = spec.get('mag')
     datasets = []
     sdir = os.path.join(scratch, 'files_' + hashlib.sha1(json.dumps(spec, sort_keys=True, default=str).encode()).hexdigest()[:12])
     for ds in spec['datasets']:
@@ -443,7 +482,7 @@ def realise(spec, scratch):
                     raise NoRecipe('file gave %d datasets' % len(d))
             d.label = ds['label']
             if ds['file'] == 'fits':
-                first = [c for c in ds['comps'] if c['kind'] in ('float', 'int', 'cat', 'floatnan') and not c.get('mem')][0]
+                first = [c for c in ds['comps'] if c['kind'] in ('float', 'int', 'cat', 'floatnan', 'vals') and not c.get('mem')][0]
                 d.main_components[0].label = first['name']
         else:
             d = Data(label=ds['label'])
@@ -475,17 +514,17 @@ def realise(spec, scratch):
         for c in ds['comps']:
             k = c['kind']
             if ds.get('region'):
-                if k in ('float', 'int', 'cat'):
-                    d.add_component(values_for(k, c['seed'], shape), c['name'])
+                if k in ('float', 'int', 'cat', 'vals'):
+                    d.add_component(comp_values(c, shape), c['name'])
                 continue
-            if ds.get('file') and k in ('float', 'int', 'cat', 'floatnan', 'key') and not c.get('mem'):
+            if ds.get('file') and k in ('float', 'int', 'cat', 'floatnan', 'key', 'vals') and not c.get('mem'):
                 if ds['file'] != 'fits' or c['name'] == d.main_components[0].label:
                     continue
-            if k in ('float', 'int', 'floatnan', 'key'):
-                comp = Component(values_for(k, c['seed'], shape), units=c.get('units'))
+            if k in ('float', 'int', 'floatnan', 'key', 'vals'):
+                comp = Component(comp_values(c, shape), units=c.get('units'))
                 d.add_component(comp, c['name'])
             elif k == 'cat':
-                vals = values_for(k, c['seed'], shape)
+                vals = comp_values(c, shape)
                 kw = {}
                 if c.get('cats') is not None:
                     kw['categories'] = cat_categories(vals, c['cats'])
@@ -494,11 +533,11 @@ def realise(spec, scratch):
                 comp = CategoricalComponent(vals, units=c.get('units'), **kw)
                 d.add_component(comp, c['name'])
             elif k == 'datetime':
-                d.add_component(DateTimeComponent(values_for(k, c['seed'], shape), units=c.get('units')), c['name'])
+                d.add_component(DateTimeComponent(comp_values(c, shape), units=c.get('units')), c['name'])
             elif k == 'dask':
                 import dask.array as da
                 from glue.core.component import DaskComponent
-                d.add_component(DaskComponent(da.from_array(values_for('float', c['seed'], shape), chunks=2)), c['name'])
+                d.add_component(DaskComponent(da.from_array(comp_values(dict(c, kind='float'), shape), chunks=2)), c['name'])
             # derived components are added where the spec lists them, i.e. possibly before stored ones
             idx = len(datasets) - 1
             if k == 'arith':
@@ -663,6 +702,63 @@ def read(d, cid):
         return 'EXC:' + type(e).__name__
 
 
+def exact(v):
+    """a purely numeric value (number, array / list / tuple / dict of numbers) with every float spelled bit for bit (hexadecimal);
+    None for anything else. A codec must not change a float64: 1700000095.0 restored as 1700000128.0 is a different region."""
+    if isinstance(v, (bool, np.bool_)):
+        return bool(v)
+    if isinstance(v, (int, np.integer)):
+        return int(v)
+    if isinstance(v, (float, np.floating)):
+        f = float(v)
+        return 'nan' if f != f else '%s = %r' % (f.hex(), f)
+    if isinstance(v, np.ndarray):
+        if v.dtype.kind not in 'fiub' or v.size == 0:       # the element type of an empty array is not observable
+            return None
+        return [exact(x) for x in v.ravel().tolist()]
+    if isinstance(v, (list, tuple)):
+        if len(v) == 0:
+            return None
+        out = [exact(x) for x in v]
+        return None if any(x is None for x in out) else out
+    if isinstance(v, dict):
+        out = {}
+        for k, x in v.items():
+            if not isinstance(k, (str, int, float)):
+                return None
+            e = exact(x)
+            if e is None:
+                return None
+            out[str(k)] = e
+        return out
+    return None
+
+
+def state_params(st, depth=0):
+    """the numeric parameters (range limits, pairs, constants, thresholds, indices ...) of every state of a (composite) subset state,
+    in structural order, bit for bit"""
+    out = []
+    if depth > 6 or st is None:
+        return out
+    o = {'class': type(st).__name__}
+    try:
+        items = sorted(vars(st).items())
+    except TypeError:
+        items = []
+    for k, v in items:
+        if k.startswith('__') or v is None:
+            continue
+        e = exact(v)
+        if e is not None:
+            o[k] = e
+    out.append(o)
+    for nm in ('state1', 'state2'):
+        out += state_params(getattr(st, nm, None), depth + 1)
+    for sub in getattr(st, 'states', None) or []:
+        out += state_params(sub, depth + 1)
+    return out
+
+
 GRID = np.meshgrid(np.arange(-1.25, 10, 0.75), np.arange(-1.25, 10, 0.75))
 
 
@@ -676,6 +772,8 @@ def roi_obs(roi):
             o[k] = roi_obs(v)
         else:
             o[k] = canon(np.asarray(v)) if isinstance(v, (np.ndarray, list, tuple)) else canon(v)
+            if exact(v) is not None:
+                o.setdefault('exact', {})[k] = exact(v)
     try:
         o['grid'] = canon(np.asarray(roi.contains(GRID[0], GRID[1])).astype(int)) if not hasattr(roi, 'contains3d') else None
     except Exception as e:
@@ -768,6 +866,7 @@ def observe(dc, aspects=None):
                 if 'styles' in A:
                     so['style'] = style_of(s.style)
                 so['rois'] = state_rois(s.subset_state)
+                so['params'] = state_params(s.subset_state)
                 subs.append(so)
             o['subsets'] = subs
         obs['data'].append(o)
@@ -1248,6 +1347,47 @@ def component_option_cases():
     return out
 
 
+# magnitudes: (name, offset, step). float32 keeps 24 bits: at 1.7e9 neighbouring float32 values are 128 apart, at 2.46e6 0.25 apart, at 1e12 65536
+# apart; the data of a session spans 9 steps, so the points lie between an edge and its single-precision image.
+MAGS = [('epoch-s', 1.7e9 + 0.3, 7.0), ('julian', 2460000.5 + 1.0 / 3, 0.001), ('id-2^24', 2.0 ** 24 + 1, 1.0), ('1e12', 1e12 + 0.5, 1000.0),
+        ('neg-epoch', -1.7e9 - 0.3, 7.0), ('1e6', 0.0, 1e6 / 3), ('tiny', 0.0, 1e-12 / 3), ('tenths', 0.1, 0.1)]
+
+
+def mag_cases():
+    """the magnitude dimension: every region class and every state with numeric parameters, at every magnitude, with and without data;
+    the table has 25 rows whose x / y values fill the span of the regions (base values k * 0.37), so rows lie close to every edge"""
+    out = []
+    xs = [round(k * 0.37, 2) for k in range(25)]
+    ys = [round(((7 * k) % 25) * 0.37, 2) for k in range(25)]
+    rois = [r for name, rs in ROI_SPECS.items() if name not in ('PointROI', 'Roi', 'VertexROIBase') for r in rs]
+    poly, path, rect = ROI_SPECS['PolygonalROI'][0], ROI_SPECS['Path'][0], ROI_SPECS['RectangularROI'][0]
+    roi_states = [{'cls': 'RoiSubsetState', 'd': 0, 'x': 'x', 'y': 'y', 'roi': r} for r in rois]
+    roi_states.append({'cls': 'RoiSubsetStateNd', 'd': 0, 'atts': ['x', 'y'], 'roi': poly})
+    roi_states.append({'cls': 'RoiSubsetState3d', 'd': 0, 'x': 'x', 'y': 'y', 'z': 'z', 'roi': {'cls': 'Projected3dROI', 'roi2d': poly, 'matrix': PROJ}})
+    roi_states.append({'cls': 'RoiSubsetState3d', 'd': 0, 'x': 'x', 'y': 'y', 'z': 'z', 'roi': {'cls': 'Projected3dROI', 'roi2d': rect, 'matrix': PROJ}})
+    pstate = {'cls': 'RoiSubsetState', 'd': 0, 'x': 'x', 'y': 'y', 'roi': path}
+    rng = {'cls': 'RangeSubsetState', 'd': 0, 'att': 'x', 'lo': 2.5, 'hi': 6.1}
+    ineq = {'cls': 'InequalitySubsetState', 'd': 0, 'left': 'y', 'right': 4.3, 'op': 'lt'}
+    other = [rng, {'cls': 'MultiRangeSubsetState', 'd': 0, 'att': 'x', 'pairs': [[0.2, 1.1], [5.3, 7.7]]}, ineq,
+             {'cls': 'InequalitySubsetState', 'd': 0, 'left': 'x', 'right': 3.3, 'op': 'ge'},
+             {'cls': 'InequalitySubsetState', 'd': 0, 'left': 'x', 'right': 'y', 'op': 'le'},
+             {'cls': 'InequalitySubsetState', 'd': 0, 'left': ['sub', 'x', 'y'], 'right': ['sub', 3.3, 2.2], 'op': 'gt'},
+             {'cls': 'CategoricalMultiRangeSubsetState', 'd': 0, 'cat': 'c', 'num': 'x', 'ranges': {'a': [[0.2, 3.1]], 'b': [[2.2, 4.4], [6.1, 8.3]], 'c': [[0.1, 8.8]]}},
+             {'cls': 'AndState', 'a': rng, 'b': pstate}, {'cls': 'OrState', 'a': ineq, 'b': rng}, {'cls': 'InvertState', 'a': pstate},
+             {'cls': 'MultiOrState', 'states': [rng, ineq, pstate]}]
+    for name, off, step in MAGS:
+        for gname, states in (('roi', roi_states), ('state', other)):
+            for inc in (True, False):
+                t = {'label': 't', 'shape': [25], 'comps': [{'name': 'x', 'kind': 'vals', 'vals': xs}, {'name': 'y', 'kind': 'vals', 'vals': ys},
+                                                            {'name': 'z', 'kind': 'int', 'seed': 13}, {'name': 'c', 'kind': 'cat', 'seed': 14}]}
+                if not inc:
+                    t['file'] = 'csv'
+                sp = {'include_data': inc, 'mag': {'off': off, 'step': step}, 'datasets': [t], 'links': [],
+                      'subsets': [{'label': 's%d' % i, 'state': copy.deepcopy(st)} for i, st in enumerate(states)]}
+                out.append(('mag:%s:%s:%s' % (name, gname, 'data' if inc else 'ref'), sp))
+    return out
+
+
 def base_spec(include_data=True, files=False):
     t = table_ds('t', n=8, seed=11, file='csv' if files else None)
     im = image_ds('im', (3, 4), seed=21, file='fits' if files else None)
@@ -1420,6 +1560,8 @@ def catalogue(tables):
     cases.extend(join_cases())
     # constructor options of the stored components (explicit category lists, jitter, units, N-d categoricals) with selections over the integer codes
     cases.extend(component_option_cases())
+    # the magnitude dimension: regions, ranges and constants at 1e6 ... 1e12, tiny and non-dyadic values, compared bit for bit
+    cases.extend(mag_cases())
     # styles: every attribute at its boundary / falsy values, on a dataset and on a subset group at once, with and without data
     for k, (nm, st) in enumerate(style_cases()):
         inc = k % 3 != 0
@@ -1622,6 +1764,10 @@ def shrink(spec, still_fails, budget=60):
         for i in range(len(cur['subsets'])):
             s = copy.deepcopy(cur)
             del s['subsets'][i]
+            cands.append(s)
+        if cur.get('mag') is not None and len(cur['subsets']) <= 1:
+            s = copy.deepcopy(cur)
+            del s['mag']
             cands.append(s)
         for i, sb in enumerate(cur['subsets']):
             st = sb['state']
@@ -2051,6 +2197,30 @@ def stream_codecs(R):
                 R.fail('correspondence', {'stream': 'codecs', 'saver': list(row), 'record_keys': sorted(ks)}, {'why': bad, 'model_always': sorted(always), 'model_sometimes': sorted(sometimes)})
     R.stream('codecs', cases=sum(len(v) for v in seen.values()), exhaustive=False, rows_seen=len(seen), rows_total=len(by_row),
              bound='every distinct (type, protocol, key set) record written by a registered saver function in the sessions of this run')
+    # the method table (gen/Gen_methodcodecs.v): every record written by a __gluestate__ method in this run has exactly the keys of one
+    # path of the row of the class that defines the method
+    rows = {r['cls']: r for r in C['methods']['savers']}
+    mseen, nbad = {}, 0
+    for typ, proto, keys in sorted(SEEN_RECORDS):
+        try:
+            cls = lookup(typ)
+        except Exception:
+            continue
+        if not isinstance(cls, type) or not hasattr(cls, '__gluestate__') or not typ.startswith('glue.'):
+            continue
+        owner = next((k for k in cls.__mro__ if '__gluestate__' in k.__dict__), None)
+        oname = '%s.%s' % (owner.__module__, owner.__qualname__)
+        if oname not in rows:
+            continue          # a class outside the families of the class table (Session, LoadLog, viewers ...)
+        ks = set(keys) - {'_type', '_protocol'}
+        mseen.setdefault(oname, set()).add(tuple(sorted(ks)))
+        R.count(('method-codecs', oname, keys), nontrivial=bool(ks), stream='method-codecs')
+        if not any(set(p['keys']) == ks for p in rows[oname]['paths']) and nbad < 10:
+            nbad += 1
+            R.fail('correspondence', {'stream': 'method-codecs', 'type': typ, 'provider': oname, 'record_keys': sorted(ks)},
+                   {'why': 'no path of the __gluestate__ row of the method table writes exactly these keys', 'table': [sorted(p['keys']) for p in rows[oname]['paths']]})
+    R.stream('method-codecs', cases=sum(len(v) for v in mseen.values()), exhaustive=False, rows_seen=len(mseen), rows_total=len(rows),
+             bound='every distinct (type, key set) record written by a __gluestate__ method of a class of the class table in the sessions of this run')
 
 
 # ====================================================================================== entry points
@@ -2163,6 +2333,10 @@ def run(R):
     for i in range(n):
         rng = R.subrng('session', i)
         sp = random_spec(rng, T)
+        mrng = R.subrng('magnitude', i)
+        if mrng.random() < 0.3:
+            _, off, step = MAGS[mrng.randrange(len(MAGS))]
+            sp['mag'] = {'off': off, 'step': step}
         check_session(R, 'random:%d' % i, sp, i % 2 == 1, 'random', nfail)
     if statuses.get('regiondata:no-extended') and statuses['regiondata:no-extended'] not in (['save-failed'], ['skipped']):
         R.fail('correspondence', {'stream': 'catalogue', 'name': 'regiondata:no-extended'},
